@@ -17,7 +17,12 @@ SPELL = {
     "V": ["M", "M == 1", "M + 0", "(M)"],
     "U": ["NOT_DEFINED_ANYWHERE", "NOT_DEFINED_ANYWHERE + 0", "0 + NOT_DEFINED_ANYWHERE"],
     # self-referential macros (defined in the batch prologue): the surviving name counts as 0
-    "R": ["!SELF", "PING == 0", "SELF + 1 == 1", "(SELF || PING) == 0", "!PONG"],
+    "R": ["!SELF", "PING == 0", "SELF + 1 == 1", "(SELF || PING) == 0", "!PONG",
+          # the name of a function-like macro that is not followed by '(' is not an invocation: it counts as 0
+          "FL == 0", "!FL", "FL(1)", "FL (2) == 2", "FL + 1", "FL(FL) == 0",
+          # operands that are not evaluated may divide by zero
+          "1 || (1/0)", "1 || 1/NOT_DEFINED_ANYWHERE", "0 ? 1/0 : 1", "!(0 && (1/0))", "(1 ? 1 : 1%0)",
+          "!defined(NOT_DEFINED_ANYWHERE) || (100/NOT_DEFINED_ANYWHERE) > 10"],
     # angle forms are searched along -S (parse_file) / -I (gcc); `vsub` is also a macro (see PROLOGUE):
     # a header name is not subject to macro replacement
     "H": ['__has_include("vinc.h")', '__has_include("vinc.h") && 1', 'defined(__has_include) && __has_include("vinc.h")',
@@ -30,7 +35,7 @@ SPELL = {
 # each with its truth vector over the three states of M, validated against gcc -E on every run
 for _c in "TFDNVU":
     SPELL[_c] = SPELL[_c] + condexpr.TABLE[_c]
-PROLOGUE = ["#define SELF SELF", "#define PING PONG", "#define PONG PING", "#define vsub 3"]
+PROLOGUE = ["#define SELF SELF", "#define PING PONG", "#define PONG PING", "#define vsub 3", "#define FL(x) x"]
 # lines without any effect, in shapes that stress the line scanner (inside kept AND skipped groups)
 NOISE = ["/* c */", "/** doc **/", "/***/", "/**/", "/* a", "// c", "// #endif", "/* #endif */", "/* #else */ // #elif 1",
          "#", "# ", "#  /* c */", 'extern const char *vs; /* "/*" */', "/* \" */", "/* ' */",
